@@ -282,11 +282,17 @@ Proof.
       destruct (same_sbx l p (arith_target false p n stride)) eqn:E; cbn [check bind] in H; [|discriminate].
       inversion H; subst. apply (same_sbx_in l s p _ Hw Hin Hp); assumption.
   - (* field *) intros H; inversion H; subst. unfold field_safe in Hf.
-    apply andb_prop in Hf as [_ Hf]. right; exact Hf.
+    apply andb_prop in Hf as [_ Hf]. right. unfold field_addr.
+    rewrite w64_small; [exact Hf|].
+    destruct Hs as (B0 & S0 & E0). unfold inr in Hf. apply andb_prop in Hf as [F1 F2].
+    apply Z.leb_le in F1. apply Z.ltb_lt in F2. lia.
   - (* element of an array through a pointer *)
     unfold arr_index. destruct ((0 <=? i) && (wrap (unsigned_of IULong) i <? len)); cbn [check bind]; [|discriminate].
     intros H; inversion H; subst. unfold field_safe in Hf.
-    apply andb_prop in Hf as [_ Hf]. right; exact Hf.
+    apply andb_prop in Hf as [_ Hf]. right.
+    rewrite w64_small; [exact Hf|].
+    destruct Hs as (B0 & S0 & E0). unfold inr in Hf. apply andb_prop in Hf as [F1 F2].
+    apply Z.leb_le in F1. apply Z.ltb_lt in F2. lia.
   - (* cast *) intros H; inversion H; subst; assumption.
   - (* load pointer cell *)
     destruct (Z.eqb_spec p 0) as [->|Hne]; [discriminate|].
